@@ -58,8 +58,15 @@ Example C16_history :
      RStored nat (-5000); RTaken nat (Some 2%nat)].
 Proof. reflexivity. Qed.
 
+(* the model's store and take are atomic steps; in the source each is one critical
+   section of ERROR_MAP (one lock acquisition around entry() / remove()) -- a fact T0
+   re-reads from src/capi/error.rs on every run *)
+Theorem C16_ops_atomic_in_source : ERRTABLE_OPS_ATOMIC = true.
+Proof. reflexivity. Qed.
+
 Print Assumptions C16_id_not_errno.
 Print Assumptions C16_unique_live.
 Print Assumptions C16_take_exact_once.
 Print Assumptions C16_refines_map.
 Print Assumptions C16_errno_table.
+Print Assumptions C16_ops_atomic_in_source.
